@@ -87,6 +87,8 @@ C.update({
 
 # ---- later extensions (kept as appended sentences so that the table above stays readable)
 C["C14"]["text"]+=" Family F9 (words of up to 5/6 blocks of stored atoms re-uploaded over one stored xorb under the fragmentation-only configurations K9/K10 and K3) reaches refused dedup ranges whose later chunks are already pending; on an unchanged re-upload withheld must EQUAL new (bytes and chunks)."
+for _p,_w in (("C01","every successful fault-free session must be reconstructible from what the injected store received"),("C03","every pointer must equal the reference pointer of its content"),("C15","every xorb handed to the injected client's put must be non-empty and within the configured limits")):
+    C[_p]["text"]+=f" Second command (evidence/{_p}x.json): the injected driver explores every await-point interleaving of the operations of two or three concurrently cleaned files (up to two driver operations in flight, every release order of the gated store calls, no injected failure); {_w}."
 C["C03"]["text"]+=" The empty content is judged like every other (its salt-independence is a recorded known finding)."
 C["C04"]["text"]+=" A last call carrying is_final=true must itself flush: finish() afterwards must return nothing."
 C["C05"]["text"]+=" One collection of 65542 shards registered in a fixed order (chunks at the same entry position in shards k and 65536+k) is queried as well."
@@ -107,7 +109,7 @@ checks=[]
 for p in props:
     if p in C:
         c=C[p]
-        x2 = " && ./check C14x --tier {t}" if p=="C14" else (" && ./check C11c --tier {t}" if p=="C11" else "")
+        x2 = " && ./check C14x --tier {t}" if p=="C14" else (" && ./check C11c --tier {t}" if p=="C11" else (f" && ./check {p}x --tier {{t}}" if p in ("C01","C03","C15") else ""))
         checks.append({"property_id":p,"quick_cmd":f"./check {p} --tier quick"+x2.format(t="quick"),"thorough_cmd":f"./check {p} --tier thorough"+x2.format(t="thorough"),
           "evidence_file":f"/verif/evidence/{p}.json","replay_cmd_template":f"./check {p} --replay {{path}}","engine":c["lab"],
           "level_claimed":{"category":c["cat"],"text":c["text"],"design_ref":"DESIGN.md section "+c["ref"]},
